@@ -29,7 +29,10 @@ def run(tier):
         for t in tags:
             fh.write(json.dumps(t) + "\n")
     out = os.path.join(wd, "ssid.json")
-    p = vlib.run([os.path.join(vlib.HBIN, "ssiddrv"), "-tags", tf, "-out", out], timeout=1500)
+    auxf = (vlib.printed(r["out"], "AUXF") or [[]])[0]
+    if not auxf:
+        raise vlib.Inconclusive("Session.tla did not print its key-material fields")
+    p = vlib.run([os.path.join(vlib.HBIN, "ssiddrv"), "-tags", tf, "-out", out, "-auxfields", ",".join(sorted(auxf))], timeout=1500)
     if p.returncode != 0:
         raise vlib.Inconclusive("ssiddrv failed: %s" % (p.stdout + p.stderr)[-2000:])
     res = json.load(open(out))
